@@ -42,6 +42,9 @@ package gin
 //@ func gin.Context.Next
 //@   nocheck
 //@   interferes
+//@ func gin.Context.Abort
+//@   nocheck
+//@   nopanic
 //
 //@ func ScopeMiddleware$1
 //@   safety[C16]
@@ -68,6 +71,8 @@ package gin
 //@   ensures[C16] handler_runs_once_after_all_middlewares: callret("godi.Provider.CreateScope", 0, 1) == nil && (forall c int :: 0 <= c && c < ncalls("fnvar:mw") ==> callret("fnvar:mw", c, 0) == nil) ==>
 //@        ncalls("fnvar:mw") == len(mws) && ncalls("gin.Context.Next") == 1 && ncalls("field:Config.ErrorHandler") == 0 && callarg("gin.Context.Next", 0, 0) == c
 //@   ensures[C16] scope_attached_before_user_code: ncalls("http.Request.WithContext") == ite(callret("godi.Provider.CreateScope", 0, 1) == nil, 1, 0) && (ncalls("http.Request.WithContext") == 1 ==> callarg("http.Request.WithContext", 0, 1) == pure("godi.Scope.Context", callret("godi.Provider.CreateScope", 0, 0, "godi.Scope")) && (forall a int :: 0 <= a && a < ncalls("fnvar:mw") ==> calltime("http.Request.WithContext", 0) < calltime("fnvar:mw", a)) && (forall a int :: 0 <= a && a < ncalls("gin.Context.Next") ==> calltime("http.Request.WithContext", 0) < calltime("gin.Context.Next", a)))
+//@   ensures[C16] rejected_request_is_aborted: ncalls("field:Config.ErrorHandler") == 1 ==> ncalls("gin.Context.Abort") >= 1 && callarg("gin.Context.Abort", ncalls("gin.Context.Abort") - 1, 0, "*gin.Context") == c && calltime("field:Config.ErrorHandler", 0) < calltime("gin.Context.Abort", ncalls("gin.Context.Abort") - 1)
+//@   ensures[C16] served_request_is_not_aborted: ncalls("field:Config.ErrorHandler") == 0 ==> ncalls("gin.Context.Abort") == 0
 //@   ensures[C16] close_error_reported: ncalls("field:Config.CloseErrorHandler") <= 1 && (ncalls("field:Config.CloseErrorHandler") == 1 ==> callarg("field:Config.CloseErrorHandler", 0, 1) == callret("godi.Scope.Close", 0, 0) && callret("godi.Scope.Close", 0, 0) != nil)
 //@   loop 1
 //@     invariant progress: ncalls("fnvar:mw") == idx && ncalls("gin.Context.Next") == 0 && ncalls("field:Config.ErrorHandler") == 0 && ncalls("godi.Scope.Close") == 0
